@@ -1,6 +1,7 @@
 from .. import cases
-from .common import run_tables
+from .common import run_carrier_sweep, run_tables
 
 
 def run(ck):
     run_tables(ck, 'C11.flat_line', cases.flat_line)
+    run_carrier_sweep(ck, 'C11.flat_line', cases.flat_line, n_max=4)
